@@ -14,11 +14,11 @@ package swagen30
 // Placeholders: the three emitters change the document (any heap) but cause no event.
 // every enum, struct and alias model has a component under its name (C07); references created before their
 // component existed are completed afterwards (fillSchemaRef)
-//@ func fillSchemaRef props C07,C08,C14
+//@ func fillSchemaRef props C07,C08,C11,C14
 //@ requires openapi != nil && openapi.Components != nil
 //@ modifies any(openapi3.SchemaRef.Value)
 //@ loop 0 invariant true
-//@ func GenerateModelsSpec props C07,C14
+//@ func GenerateModelsSpec props C07,C11,C14
 //@ requires openapi != nil && openapi.Components != nil && openapi.Components.Schemas != nil && models != nil
 //@ modifies elems(openapi.Components.Schemas), schemaRefMap, any(elems(schemaRefMap)), any(openapi3.SchemaRef.Value), any(openapi3.Schema.Description), any(openapi3.Schema.Deprecated), any(openapi3.Schema.Format), any(openapi3.Schema.Min), any(openapi3.Schema.Max), any(openapi3.Schema.ExclusiveMin), any(openapi3.Schema.ExclusiveMax), any(openapi3.Schema.MinLength), any(openapi3.Schema.MaxLength), any(openapi3.Schema.Pattern), any(openapi3.Schema.MinItems), any(openapi3.Schema.MaxItems), any(openapi3.Schema.UniqueItems), any(openapi3.Schema.Enum), any(elems([]any))
 //@ ensures result == nil
@@ -51,7 +51,7 @@ package swagen30
 //@ spec refsOK(m []SchemaRefMap) bool = forall(i, 0, len(m), m[i].SchemaRef != nil)
 //@ pkginvariant pendingRefs: refsOK(schemaRefMap)
 //@ func init props C07,C08,C14
-//@ func InterfaceToSchemaRef props C08,C07,C14
+//@ func InterfaceToSchemaRef props C08,C07,C11,C14
 //@ requires openapi != nil && openapi.Components != nil
 //@ modifies schemaRefMap, any(elems(schemaRefMap))
 //@ ensures result != nil && fresh(result) && implies(result.Ref == "", result.Value != nil && fresh(result.Value))
@@ -66,12 +66,14 @@ package swagen30
 //@ spec skippedField(f definitions.FieldMetadata) bool = f.IsEmbedded && f.Type == "error"
 // the schema that carries the struct's own fields: the component itself, or the first member of its allOf
 //@ spec fieldsSchema(c *openapi3.SchemaRef, m definitions.StructMetadata) *openapi3.Schema = ite(swagtool.hasEmbedded(m), c.Value.AllOf[0].Value, c.Value)
-//@ func generateStructSpec props C07,C14
+//@ func generateStructSpec props C07,C11,C14
 //@ opaque swagtool.GetTagValue, swagtool.IsFieldRequired, swagtool.GetJsonNameFromTag
 //@ requires openapi != nil && openapi.Components != nil && openapi.Components.Schemas != nil
 //@ modifies elems(openapi.Components.Schemas), schemaRefMap, any(elems(schemaRefMap)), any(openapi3.Schema.Description), any(openapi3.Schema.Deprecated), any(openapi3.Schema.Format), any(openapi3.Schema.Min), any(openapi3.Schema.Max), any(openapi3.Schema.ExclusiveMin), any(openapi3.Schema.ExclusiveMax), any(openapi3.Schema.MinLength), any(openapi3.Schema.MaxLength), any(openapi3.Schema.Pattern), any(openapi3.Schema.MinItems), any(openapi3.Schema.MaxItems), any(openapi3.Schema.UniqueItems), any(openapi3.Schema.Enum), any(elems([]any))
 //@ ensures reg: indom(openapi.Components.Schemas, model.Name) && openapi.Components.Schemas[model.Name] != nil && openapi.Components.Schemas[model.Name].Value != nil
 //@ ensures others: forall(n, string, implies(n != model.Name, indom(openapi.Components.Schemas, n) == old(indom(openapi.Components.Schemas, n)) && openapi.Components.Schemas[n] == old(openapi.Components.Schemas[n])))
+// usage sites never write into a component that exists already (a field of a named type shares that component's schema)
+//@ ensures shared: forall(n, string, implies(n != model.Name && old(indom(openapi.Components.Schemas, n)) && old(openapi.Components.Schemas[n]) != nil && old(openapi.Components.Schemas[n].Value) != nil, openapi.Components.Schemas[n].Value == old(openapi.Components.Schemas[n].Value) && openapi.Components.Schemas[n].Value.Deprecated == old(openapi.Components.Schemas[n].Value.Deprecated) && openapi.Components.Schemas[n].Value.Description == old(openapi.Components.Schemas[n].Value.Description)))
 //@ ensures shape: implies(swagtool.hasEmbedded(model), len(openapi.Components.Schemas[model.Name].Value.AllOf) >= 1 && openapi.Components.Schemas[model.Name].Value.AllOf[0] != nil && openapi.Components.Schemas[model.Name].Value.AllOf[0].Value != nil)
 //@ ensures title: fieldsSchema(openapi.Components.Schemas[model.Name], model).Title == model.Name && fieldsSchema(openapi.Components.Schemas[model.Name], model).Description == model.Description
 //@ ensures props: forall(k, 0, len(model.Fields), implies(!model.Fields[k].IsEmbedded, indom(fieldsSchema(openapi.Components.Schemas[model.Name], model).Properties, swagtool.jsonName(model.Fields[k]))))
@@ -86,6 +88,7 @@ package swagen30
 //@ loop 1 invariant implies(!hasEmbeddedField, modelSchema == schema) && implies(hasEmbeddedField, modelSchema != schema && len(modelSchema.AllOf) >= 1 && fresh(modelSchema.AllOf) && modelSchema.AllOf[0] != nil && fresh(modelSchema.AllOf[0]) && modelSchema.AllOf[0].Value == schema)
 //@ loop 1 invariant forall(j, 0, len(relevantFields), implies(relevantFields[j].IsEmbedded, hasEmbeddedField))
 //@ loop 1 invariant forall(n, string, indom(openapi.Components.Schemas, n) == old(indom(openapi.Components.Schemas, n)) && openapi.Components.Schemas[n] == old(openapi.Components.Schemas[n]))
+//@ loop 1 invariant forall(n, string, implies(old(indom(openapi.Components.Schemas, n)) && old(openapi.Components.Schemas[n]) != nil && old(openapi.Components.Schemas[n].Value) != nil, openapi.Components.Schemas[n].Value == old(openapi.Components.Schemas[n].Value) && openapi.Components.Schemas[n].Value.Deprecated == old(openapi.Components.Schemas[n].Value.Deprecated) && openapi.Components.Schemas[n].Value.Description == old(openapi.Components.Schemas[n].Value.Description)))
 //@ loop 1 invariant forall(j, 0, _n, implies(!relevantFields[j].IsEmbedded, indom(schema.Properties, swagtool.jsonName(relevantFields[j]))))
 //@ loop 1 invariant forall(j, 0, _n, implies(!relevantFields[j].IsEmbedded && swagtool.fieldRequired(relevantFields[j]), exists(r, 0, len(requiredFields), requiredFields[r] == swagtool.jsonName(relevantFields[j]))))
 //@ loop 1 invariant forall(r, 0, len(requiredFields), exists(j, 0, _n, !relevantFields[j].IsEmbedded && swagtool.fieldRequired(relevantFields[j]) && requiredFields[r] == swagtool.jsonName(relevantFields[j])))
@@ -280,7 +283,7 @@ package swagen30
 //@ loop 0 invariant forall(n, string, implies(indom(securitySchemes, n), exists(k, 0, _n, (*securityConfig)[k].SecurityName == n)))
 
 // ---- enum and alias components (C07): registered under their name, one enum entry per declared value ----
-//@ func generateEnumSpec props C07,C14
+//@ func generateEnumSpec props C07,C11,C14
 //@ requires openapi != nil && openapi.Components != nil && openapi.Components.Schemas != nil
 //@ modifies elems(openapi.Components.Schemas)
 //@ ensures reg: indom(openapi.Components.Schemas, model.Name) && openapi.Components.Schemas[model.Name] != nil && openapi.Components.Schemas[model.Name].Value != nil
@@ -288,7 +291,7 @@ package swagen30
 //@ ensures others: forall(n, string, implies(n != model.Name, indom(openapi.Components.Schemas, n) == old(indom(openapi.Components.Schemas, n)) && openapi.Components.Schemas[n] == old(openapi.Components.Schemas[n])))
 //@ loop 0 invariant 0 <= _n && _n <= len(model.Values) && len(enumValues) == _n && fresh(enumValues)
 
-//@ func generateAliasSpec props C07,C14
+//@ func generateAliasSpec props C07,C11,C14
 //@ requires openapi != nil && openapi.Components != nil && openapi.Components.Schemas != nil
 //@ modifies elems(openapi.Components.Schemas)
 //@ ensures reg: indom(openapi.Components.Schemas, alias.Name) && openapi.Components.Schemas[alias.Name] != nil && openapi.Components.Schemas[alias.Name].Value != nil && openapi.Components.Schemas[alias.Name].Value.Title == alias.Name
